@@ -302,6 +302,62 @@ fn run_resp(a: &[&str]) -> (String, String) {
     (canon, format!("presented={}", presented))
 }
 
+// one parser value fed two messages in succession (the second only if the first completed): what a
+// caller does on a persistent connection when it keeps the value
+fn run_reuse_resp(a: &[&str]) -> (String, String) {
+    let mut r = Response::new();
+    let mut canons: Vec<String> = Vec::new();
+    for (k, arg) in a.iter().take(2).enumerate() {
+        let dels = deliveries(arg);
+        let (trace, verdict, total, _) = feed(
+            |buf| match r.parse(buf) {
+                Ok(res) => match res.status {
+                    ResponseParseStatus::Complete => Step::Complete(res.consumed),
+                    ResponseParseStatus::Incomplete => Step::Incomplete(res.consumed),
+                },
+                Err(e) => Step::Reject(err_cat(&e)),
+            },
+            &dels,
+        );
+        if verdict.starts_with('R') {
+            canons.push(format!("m{}:tr={};v={}", k, trace, verdict));
+            break;
+        }
+        canons.push(format!("m{}:tr={};v={};tot={};{}", k, trace, verdict, total, resp_fields(&r)));
+        if verdict != "C" {
+            break;
+        }
+    }
+    (canons.join("|"), String::new())
+}
+
+fn run_reuse_req(a: &[&str]) -> (String, String) {
+    let mut r = new_request(a[0], a[1], a[2]);
+    let mut canons: Vec<String> = Vec::new();
+    for (k, arg) in a.iter().skip(3).take(2).enumerate() {
+        let dels = deliveries(arg);
+        let (trace, verdict, total, _) = feed(
+            |buf| match r.parse(buf) {
+                Ok(res) => match res.status {
+                    RequestParseStatus::Complete => Step::Complete(res.consumed),
+                    RequestParseStatus::Incomplete => Step::Incomplete(res.consumed),
+                },
+                Err(e) => Step::Reject(err_cat(&e)),
+            },
+            &dels,
+        );
+        if verdict.starts_with('R') {
+            canons.push(format!("m{}:tr={};v={}", k, trace, verdict));
+            break;
+        }
+        canons.push(format!("m{}:tr={};v={};tot={};{}", k, trace, verdict, total, req_fields(&r)));
+        if verdict != "C" {
+            break;
+        }
+    }
+    (canons.join("|"), String::new())
+}
+
 // private parser state (phase, byte count) from the derived Debug output: diagnostics only
 fn state_fingerprint(dbg: &str) -> String {
     let mut out = String::new();
@@ -347,28 +403,69 @@ fn run_txt(a: &[&str]) -> (String, String) {
     (canon, String::new())
 }
 
-fn parse_back_req(rl: &str, hl: &str, mm: &str, bytes: &[u8]) -> String {
-    let mut r = new_request(rl, hl, mm);
-    match r.parse(bytes) {
-        Ok(res) => format!(
-            "{}{};{}",
-            if res.status == RequestParseStatus::Complete { "C" } else { "I" },
-            res.consumed,
-            req_fields(&r)
-        ),
-        Err(e) => format!("R:{}", err_cat(&e)),
+// how generated bytes are presented when they are parsed back: whole ("-" or absent), cut between the
+// CR and LF of the start line ("cr"), or cut at byte k ("<k>", taken modulo the length)
+fn split_for(g: &[u8], spec: Option<&&str>) -> Vec<Vec<u8>> {
+    let p = match spec.copied() {
+        None | Some("-") | Some("") => return vec![g.to_vec()],
+        Some("cr") => match g.iter().position(|b| *b == b'\r') {
+            Some(i) => i + 1,
+            None => return vec![g.to_vec()],
+        },
+        Some(k) => k.parse::<usize>().unwrap_or(0) % (g.len() + 1),
+    };
+    vec![g[..p].to_vec(), g[p..].to_vec()]
+}
+
+fn feed_back_req(r: &mut Request, g: &[u8], spec: Option<&&str>) -> Result<(char, usize), String> {
+    let dels = split_for(g, spec);
+    let (_, verdict, total, _) = feed(
+        |buf| match r.parse(buf) {
+            Ok(res) => match res.status {
+                RequestParseStatus::Complete => Step::Complete(res.consumed),
+                RequestParseStatus::Incomplete => Step::Incomplete(res.consumed),
+            },
+            Err(e) => Step::Reject(err_cat(&e)),
+        },
+        &dels,
+    );
+    match verdict.as_str() {
+        "C" => Ok(('C', total)),
+        "N" => Ok(('I', total)),
+        v => Err(v.to_string()),
     }
 }
-fn parse_back_resp(bytes: &[u8]) -> String {
+fn feed_back_resp(r: &mut Response, g: &[u8], spec: Option<&&str>) -> Result<(char, usize), String> {
+    let dels = split_for(g, spec);
+    let (_, verdict, total, _) = feed(
+        |buf| match r.parse(buf) {
+            Ok(res) => match res.status {
+                ResponseParseStatus::Complete => Step::Complete(res.consumed),
+                ResponseParseStatus::Incomplete => Step::Incomplete(res.consumed),
+            },
+            Err(e) => Step::Reject(err_cat(&e)),
+        },
+        &dels,
+    );
+    match verdict.as_str() {
+        "C" => Ok(('C', total)),
+        "N" => Ok(('I', total)),
+        v => Err(v.to_string()),
+    }
+}
+
+fn parse_back_req(rl: &str, hl: &str, mm: &str, bytes: &[u8], spec: Option<&&str>) -> String {
+    let mut r = new_request(rl, hl, mm);
+    match feed_back_req(&mut r, bytes, spec) {
+        Ok((tag, consumed)) => format!("{}{};{}", tag, consumed, req_fields(&r)),
+        Err(v) => v,
+    }
+}
+fn parse_back_resp(bytes: &[u8], spec: Option<&&str>) -> String {
     let mut r = Response::new();
-    match r.parse(bytes) {
-        Ok(res) => format!(
-            "{}{};{}",
-            if res.status == ResponseParseStatus::Complete { "C" } else { "I" },
-            res.consumed,
-            resp_fields(&r)
-        ),
-        Err(e) => format!("R:{}", err_cat(&e)),
+    match feed_back_resp(&mut r, bytes, spec) {
+        Ok((tag, consumed)) => format!("{}{};{}", tag, consumed, resp_fields(&r)),
+        Err(v) => v,
     }
 }
 
@@ -388,21 +485,15 @@ fn run_genreq(a: &[&str]) -> (String, String) {
     let canon = match measure(|| r.generate()) {
         Ok(g) => {
             let mut r2 = new_request(a[0], a[1], a[2]);
-            let back = match r2.parse(&g) {
-                Ok(res) => {
+            let back = match feed_back_req(&mut r2, &g, a.get(7)) {
+                Ok((tag, consumed)) => {
                     let regen = match r2.generate() {
                         Ok(g2) => hex(&g2),
                         Err(e) => format!("err:{}", err_cat(&e)),
                     };
-                    format!(
-                        "{}{};{};regen={}",
-                        if res.status == RequestParseStatus::Complete { "C" } else { "I" },
-                        res.consumed,
-                        req_fields(&r2),
-                        regen
-                    )
+                    format!("{}{};{};regen={}", tag, consumed, req_fields(&r2), regen)
                 },
-                Err(e) => format!("R:{}", err_cat(&e)),
+                Err(v) => v,
             };
             format!("gen={};orig={};back={}", hex(&g), req_fields(&r), back)
         },
@@ -423,21 +514,15 @@ fn run_genresp(a: &[&str]) -> (String, String) {
     let canon = match measure(|| r.generate()) {
         Ok(g) => {
             let mut r2 = Response::new();
-            let back = match r2.parse(&g) {
-                Ok(res) => {
+            let back = match feed_back_resp(&mut r2, &g, a.get(4)) {
+                Ok((tag, consumed)) => {
                     let regen = match r2.generate() {
                         Ok(g2) => hex(&g2),
                         Err(e) => format!("err:{}", err_cat(&e)),
                     };
-                    format!(
-                        "{}{};{};regen={}",
-                        if res.status == ResponseParseStatus::Complete { "C" } else { "I" },
-                        res.consumed,
-                        resp_fields(&r2),
-                        regen
-                    )
+                    format!("{}{};{};regen={}", tag, consumed, resp_fields(&r2), regen)
                 },
-                Err(e) => format!("R:{}", err_cat(&e)),
+                Err(v) => v,
             };
             format!("gen={};orig={};back={}", hex(&g), resp_fields(&r), back)
         },
@@ -456,7 +541,7 @@ fn run_rtreq(a: &[&str]) -> (String, String) {
                 "first={};gen={};back={}",
                 req_fields(&r),
                 hex(&g),
-                parse_back_req(a[0], a[1], a[2], &g)
+                parse_back_req(a[0], a[1], a[2], &g, a.get(4))
             ),
             Err(e) => format!("first={};generr:{}", req_fields(&r), err_cat(&e)),
         },
@@ -476,7 +561,7 @@ fn run_rtresp(a: &[&str]) -> (String, String) {
                     "first={};gen={};back={}",
                     resp_fields(&r),
                     hex(&g),
-                    parse_back_resp(&g)
+                    parse_back_resp(&g, a.get(1))
                 ),
                 Err(e) => format!("first={};generr:{}", resp_fields(&r), err_cat(&e)),
             }
@@ -574,6 +659,8 @@ fn run_case(kind: &str, args: &[&str]) -> (String, String) {
         "rtresp" => run_rtresp(args),
         "pipereq" => run_pipereq(args),
         "piperesp" => run_piperesp(args),
+        "reuseresp" => run_reuse_resp(args),
+        "reusereq" => run_reuse_req(args),
         "defaults" => run_defaults(),
         _ => ("unknown-kind".into(), String::new()),
     }
